@@ -872,3 +872,114 @@ impl<Item: PartialEq + Clone, Err, O: Observer<Item, Err>> Observer<Item, Err> f
   fn complete(self) { self.observer.complete() }
   fn is_finished(&self) -> bool { self.observer.is_finished() }
 }
+
+// ---------------------------------------------------------------- C16.E5
+/// stream driver that looks at is_finished only when the stream yields another item: after the
+/// downstream ended the stream from inside next(), a quiet stream parks the task for ever
+pub struct LateCheckDriver<S, O> { stream: S, observer: Option<O> }
+impl<S, O> std::future::Future for LateCheckDriver<S, O>
+where
+  S: futures::Stream + Unpin,
+  O: Observer<S::Item, Infallible> + Unpin,
+{
+  type Output = NormalReturn<()>;
+  fn poll(mut self: std::pin::Pin<&mut Self>, cx: &mut std::task::Context<'_>) -> std::task::Poll<Self::Output> {
+    loop {
+      let this = &mut *self;
+      let next = futures::ready!(std::pin::Pin::new(&mut this.stream).poll_next(cx));
+      match next {
+        Some(value) => {
+          let observer = this.observer.as_mut().expect("polled after done");
+          if observer.is_finished() {
+            this.observer.take();
+            break std::task::Poll::Ready(NormalReturn::new(()));
+          }
+          observer.next(value);
+        }
+        None => {
+          let observer = this.observer.take().expect("polled after done");
+          observer.complete();
+          break std::task::Poll::Ready(NormalReturn::new(()));
+        }
+      }
+    }
+  }
+}
+
+// ---------------------------------------------------------------- C10.L6
+/// `front` being Some promises `back` is Some (promote unwraps it under the front guard), but close() empties back first
+pub struct CtlPairedCells { front: MutArc<Option<Vec<u32>>>, back: MutArc<Option<Vec<u32>>> }
+impl CtlPairedCells {
+  pub fn promote(&self) {
+    if let Some(f) = self.front.rc_deref_mut().as_mut() {
+      f.append(self.back.rc_deref_mut().as_mut().unwrap());
+    }
+  }
+  pub fn close(&self) {
+    self.back.rc_deref_mut().take();
+    self.front.rc_deref_mut().take();
+  }
+}
+
+// ---------------------------------------------------------------- C18 builder twins
+pub fn ctl_concat<S: ObservableExt<u8, Infallible>>(s: S) -> crate::ops::take::TakeOp<S> { s.take(1) }
+pub fn ctl_concat_threads<S: ObservableExt<u8, Infallible>>(s: S) -> crate::ops::take::TakeOp<S> { s.take(usize::MAX) }
+
+// ---------------------------------------------------------------- C13.Z1 (eager into_iter)
+/// a builder that already starts the user's collection
+pub fn eager_iter_builder<I: IntoIterator>(iter: I) -> EagerIter<I::IntoIter> {
+  EagerIter(iter.into_iter())
+}
+
+// ---------------------------------------------------------------- C02.U7
+/// hands back (handle cell, source): the re-fillable handle cell is emptied before the source is silenced
+pub struct HandleFirstOp<S> { source: S }
+impl<Item, Err, O, S> Observable<Item, Err, O> for HandleFirstOp<S>
+where
+  S: Observable<Item, Err, O>,
+  O: Observer<Item, Err>,
+{
+  type Unsub = ZipSubscription<MutRc<Option<TaskHandle<NormalReturn<()>>>>, S::Unsub>;
+  fn actual_subscribe(self, observer: O) -> Self::Unsub {
+    let cell = MutRc::own(None);
+    let u = self.source.actual_subscribe(observer);
+    ZipSubscription::new(cell, u)
+  }
+}
+
+// ---------------------------------------------------------------- C17.K6
+/// a composite that lets go of a live part without unsubscribing it
+pub struct ForgetfulMulti(MutRc<Option<Vec<Option<BoxSubscription<'static>>>>>);
+impl ForgetfulMulti {
+  pub fn release(&mut self, slot: usize) {
+    if let Some(vec) = self.0.rc_deref_mut().as_mut() {
+      if let Some(v) = vec.get_mut(slot) {
+        v.take();
+      }
+    }
+  }
+  pub fn prune(&mut self) {
+    if let Some(vec) = self.0.rc_deref_mut().as_mut() {
+      vec.retain(|v| v.is_some());
+    }
+  }
+  pub fn forget_last(&mut self) {
+    if let Some(vec) = self.0.rc_deref_mut().as_mut() {
+      vec.pop();
+    }
+  }
+  pub fn keep_even(&mut self) {
+    let mut i = 0;
+    if let Some(vec) = self.0.rc_deref_mut().as_mut() {
+      vec.retain(|v| { i += 1; if i % 2 == 0 { true } else { false } });
+    }
+  }
+}
+
+// ---------------------------------------------------------------- C14.R8
+/// a status whose flag is also written by the waiter (2 = "somebody waits"), while closed() still means flag != 0
+pub struct CtlStatus3 { flag: AtomicI8 }
+impl CtlStatus3 {
+  pub fn closed(&self) -> bool { self.flag.load(Ordering::Relaxed) != 0 }
+  pub fn announce(&self) { let _ = self.flag.compare_exchange(0, 2, Ordering::AcqRel, Ordering::Acquire); }
+}
